@@ -8,10 +8,12 @@ M = {
  "S10-nn-floor-half": ["C04"], "S11-array-double-via-float": ["C08", "C07"], "S12-footer-and-merge": ["C08"], "S13-footer-legacy-eof": ["C08"],
  "S14-strided-extent-check": ["C06"], "S15-array-assign-release-leak": ["C12"], "S16-array-assign-reuse-capacity": ["C12", "C15"],
  "S17-hilbert-rect-allocation": ["C01", "C05"], "S18-morton-copy-component-loop": ["C05"], "S19-morton-bmi2-mask-width": ["C14", "C01"],
- "S20-round-pow2-bit-smear": ["C18"], "S21-rowmajor-stride-accumulate": ["C14", "C01"],
+ "S20-round-pow2-bit-smear": ["C18"], "S22-compose-drops-left-translation": ["C09"], "S23-compose-right-factor-transposed": ["C09"],
+ "S24-layer-transposed-linear-part": ["C09"], "S25-hilbert-static-extent-cache": ["C16"], "S26-morton-1d-shift-overflow": ["C15", "C14"], "N01-morton-tight-storage-correct": ["C18", "C01", "C05"], "S21-rowmajor-stride-accumulate": ["C14", "C01"],
 }
 only = sys.argv[1:] 
-res = {}
+import os
+res = json.load(open('/verif/seeded/results.json')) if only and os.path.exists('/verif/seeded/results.json') else {}
 for sid, props in M.items():
     if only and not any(sid.startswith(o) for o in only): continue
     r = seeded_eval.run(sid, props)
